@@ -1,7 +1,10 @@
 //! C03 harness: interprets span-API programs (data) through the REAL `tracing` / `tracing-futures` API under
 //! recording collectors, one OS thread per program thread, driven op by op by a controller.
 //!
-//! stdin : one JSON case per line  {"id":k,"threads":T,"collectors":K,"ops":[[t,code,a,b,c,d,e],...]}
+//! stdin : one JSON case per line  {"id":k,"threads":T,"collectors":K,"wraps":[w1..wK],"ops":[[t,code,a,b,c,d,e],...]}
+//!         collector k is installed as Dispatch::new(Rec) (w = 0), Box<Rec> (1), Arc<Rec> (2), Box<dyn Collect + Send + Sync>
+//!         (3) or Arc<dyn Collect + Send + Sync> (4); collectors 3.. hand out a fresh id per handle from clone_span and
+//!         do not track the current span
 //! stdout: one JSON line per case  {"id":k,"rejected_at":-1|i,"ops":[{"e":[[c,t,tag,id,x,y],..],"res":r,"dr":d,"pre":p}],"fatal":null|".."}
 //!
 //! Design choices (see notes/C03.md):
@@ -55,6 +58,8 @@ impl Shared {
 
 struct Rec {
     name: u64,
+    /// clone_span returns a fresh id (an alias of the same span) and current_span is the trait's default (unknown)
+    per_handle: bool,
     shared: Arc<Shared>,
     stacks: Mutex<HashMap<u64, Vec<u64>>>,
     metas: Mutex<HashMap<u64, &'static Metadata<'static>>>,
@@ -87,8 +92,18 @@ impl Collect for Rec {
         Id::from_u64(id)
     }
     fn clone_span(&self, id: &Id) -> Id {
-        self.call(2, id.into_u64(), 0, 0);
-        id.clone()
+        if self.per_handle {
+            let new = self.shared.next_id.fetch_add(1, Ordering::SeqCst);
+            let meta = self.metas.lock().unwrap().get(&id.into_u64()).copied();
+            if let Some(m) = meta {
+                self.metas.lock().unwrap().insert(new, m);
+            }
+            self.call(2, id.into_u64(), new, 0);
+            Id::from_u64(new)
+        } else {
+            self.call(2, id.into_u64(), id.into_u64(), 0);
+            id.clone()
+        }
     }
     fn try_close(&self, id: Id) -> bool {
         self.call(3, id.into_u64(), 0, 0);
@@ -116,6 +131,9 @@ impl Collect for Rec {
     }
     fn event(&self, _: &tracing::Event<'_>) {}
     fn current_span(&self) -> Current {
+        if self.per_handle {
+            return Current::unknown();
+        }
         let t = TID.with(|t| t.get());
         let st = self.stacks.lock().unwrap();
         match st.get(&t).and_then(|v| v.last().copied()) {
@@ -1079,9 +1097,29 @@ fn run_case(v: &serde_json::Value) -> serde_json::Value {
         })
         .collect();
     let shared = Arc::new(Shared { log: Mutex::new(Vec::new()), next_id: AtomicU64::new(1), recording: AtomicBool::new(true) });
+    let wraps: Vec<u64> = v["wraps"].as_array().map(|a| a.iter().map(|x| x.as_u64().unwrap_or(0)).collect()).unwrap_or_default();
     let dispatches: Vec<Dispatch> = (1..=ncoll)
         .map(|k| {
-            Dispatch::new(Rec { name: k, shared: shared.clone(), stacks: Mutex::new(HashMap::new()), metas: Mutex::new(HashMap::new()) })
+            let rec = Rec {
+                name: k,
+                per_handle: k >= 3,
+                shared: shared.clone(),
+                stacks: Mutex::new(HashMap::new()),
+                metas: Mutex::new(HashMap::new()),
+            };
+            match wraps.get((k - 1) as usize).copied().unwrap_or(0) {
+                0 => Dispatch::new(rec),
+                1 => Dispatch::new(Box::new(rec)),
+                2 => Dispatch::new(Arc::new(rec)),
+                3 => {
+                    let b: Box<dyn Collect + Send + Sync> = Box::new(rec);
+                    Dispatch::new(b)
+                }
+                _ => {
+                    let a: Arc<dyn Collect + Send + Sync> = Arc::new(rec);
+                    Dispatch::new(a)
+                }
+            }
         })
         .collect();
     let case = Arc::new(Case { shared: shared.clone(), tables: Mutex::new(Tables { holders: HashMap::new() }), dispatches });
@@ -1167,7 +1205,7 @@ fn main() {
     // Capture the three callsites' metadata once (for the direct Span::new* calls) under a throw-away collector.
     {
         let sh = Arc::new(Shared { log: Mutex::new(Vec::new()), next_id: AtomicU64::new(1), recording: AtomicBool::new(false) });
-        let d = Dispatch::new(Rec { name: 9, shared: sh, stacks: Mutex::new(HashMap::new()), metas: Mutex::new(HashMap::new()) });
+        let d = Dispatch::new(Rec { name: 9, per_handle: false, shared: sh, stacks: Mutex::new(HashMap::new()), metas: Mutex::new(HashMap::new()) });
         dispatch::with_default(&d, || {
             let a = mk_ctx();
             let b = mk_root();
